@@ -44,7 +44,8 @@ contract(L + "calculate_interest", props=P, abstract=True, returns="Dict[Str,Rea
          raises={"Error": []})
 contract(L + "calculate_collateral", props=P, abstract=True, returns="Dict[Str,Real]", modifies=[], types={"prices": "Prices"},
          requires=[("prices", "prices_wf(prices)")],
-         ensures=[("fresh", "fresh(result)"), ("nonneg", "forall(lambda s=Str: at(result, s) >= 0)")],
+         ensures=[("fresh", "fresh(result)"), ("nonneg", "forall(lambda s=Str: at(result, s) >= 0)"),
+                  ("no_collateral", "implies(self.no_collateral, forall(lambda s=Str: not (s in result)))")],
          raises={"Error": []})
 
 specfun("cond_wf", ["c"], "c.interest_percentage >= 0 and c.min_interest >= 0 and c.interest_period >= 0 and c.margin_requirement >= 0")
@@ -78,6 +79,7 @@ NEWLOAN = [("fresh", "fresh(result) and fresh(result._paid_interest)"),
            ("fields", "result._borrowed_symbol == symbol and result._borrowed_amount == amount and result._is_open "
                       "and result._created_at == created_at and forall(lambda s=Str: not (s in result._paid_interest))"),
            ("wf", "loan_wf(result) and loan_cond_wf(result)"),
+           ("no_collateral", "implies(self.no_collateral, result.no_collateral)"),
            # assumed of every lending strategy: loan ids are fresh (uuid4): not a key of any existing container
            ("fresh_id", "forall(lambda c=ExchangeObjectContainer: not (result._id in c._items)) "
                         "and forall(lambda m=LoanManager: not (result._id in m._collateral_by_loan))")]
@@ -86,7 +88,7 @@ contract(LS + "LendingStrategy.create_loan", props=P, abstract=True, types={"sym
 contract(LS + "NoLoans.create_loan", props=P + ["C10"], types={"symbol": "Str", "amount": "Real"}, returns="Loan", modifies=[],
          notes="never-returns: without a lending strategy every borrow request fails",
          ensures=[("never", "FALSE")], raises={"Error!": []})
-specfun("lending_wf", ["s"], "implies(typeis(s, 'MarginLoans'), ml_wf(s))")
+specfun("lending_wf", ["s"], "implies(typeis(s, 'MarginLoans'), ml_wf(s) and s.no_collateral)")
 specfun("ml_wf", ["s"], "forall(lambda k=Str: implies(k in s._conditions, cond_wf(s._conditions[k]))) "
                         "and implies(not_none(s._default_conditions), cond_wf(s._default_conditions))")
 MLS = B + "lending.margin.MarginLoans."
@@ -97,7 +99,7 @@ contract(MLS + "get_conditions", props=P, returns="MarginLoanConditions", modifi
          raises={"Error!": [("none", "not (symbol in self._conditions) and is_none(self._default_conditions)")]})
 contract(MLS + "create_loan", props=P, types={"symbol": "Str", "amount": "Real"}, returns="Loan", modifies=[],
          requires=[("amount", "amount > 0"), ("wf", "ml_wf(self)")],
-         ensures=NEWLOAN + [("conditions", "typeis(result, 'MarginLoan') and same_object(result._conditions, self._conditions[symbol] "
+         ensures=[x for x in NEWLOAN if x[0] != "no_collateral"] + [("no_collateral", "result.no_collateral"), ("conditions", "typeis(result, 'MarginLoan') and same_object(result._conditions, self._conditions[symbol] "
                                            "if (symbol in self._conditions) else self._default_conditions)")],
          raises={"Error!": [("none", "not (symbol in self._conditions) and is_none(self._default_conditions)")]})
 
@@ -109,7 +111,8 @@ specfun("acc_of", ["m"], "m._ctx.account_balances")
 specfun("cfg_all_symbols", ["c"], "forall(lambda s=Str: cfg_has_symbol(c, s))")
 specfun("lm_acc", ["m"], "rules_ok(acc_of(m)) and wf_account(acc_of(m)) and prices_wf(m._ctx.prices) and lending_wf(m._lending_strategy)")
 specfun("lm_coll_dom", ["m"], "forall(lambda k=Str: (k in m._collateral_by_loan) == ((k in m._loans._items) and m._loans._items[k]._is_open))")
-specfun("lm_coll_nonneg", ["m"], "forall(lambda k=Str, s=Str: implies(k in m._collateral_by_loan, at(m._collateral_by_loan[k], s) >= 0))")
+specfun("lm_coll_nonneg", ["m"], "forall(lambda k=Str, s=Str: implies(k in m._collateral_by_loan, at(m._collateral_by_loan[k], s) >= 0 "
+                                 "and implies(m._loans._items[k].no_collateral, not (s in m._collateral_by_loan[k]))))")
 specfun("lm_loans_wf", ["m"], "forall(lambda k=Str: implies(k in m._loans._items, m._loans._items[k]._id == k and loan_wf(m._loans._items[k]) and loan_cond_wf(m._loans._items[k])))")
 specfun("lm_inv", ["m"], "lm_acc(m) and lm_coll_dom(m) and lm_coll_nonneg(m) and lm_loans_wf(m)")
 LM_INV = [("inv_acc", "lm_acc(self)"), ("inv_coll_dom", "lm_coll_dom(self)"), ("inv_coll_nonneg", "lm_coll_nonneg(self)"), ("inv_loans_wf", "lm_loans_wf(self)")]
@@ -139,11 +142,13 @@ contract(LM + "create_loan", props=P, types={"symbol": "Str", "amount": "Real"},
          ensures=LM_INV + [
                   ("registered", "(result.id in self._loans._items) and not old(result.id in self._loans._items) "
                                  "and fresh(self._loans._items[result.id])"),
-                  ("loan", "let(lambda l=self._loans._items[result.id]: l._borrowed_symbol == symbol and l._borrowed_amount == amount and l._is_open)"),
+                  ("loan", "let(lambda l=self._loans._items[result.id]: l._borrowed_symbol == symbol and l._borrowed_amount == amount and l._is_open "
+                           "and clock_ok(self) and l._created_at == now_of(self))"),
                   # principal moves symmetrically through balance and borrowed: no total changes (C01)
                   ("balances", "forall(lambda s=Str: at(acc_of(self).balances, s) == old(at(acc_of(self).balances, s)) + (amount if s == symbol else 0))"),
                   ("borrowed", "forall(lambda s=Str: at(acc_of(self).borrowed, s) == old(at(acc_of(self).borrowed, s)) + (amount if s == symbol else 0))"),
-                  ("holds", "forall(lambda s=Str: at(acc_of(self).holds, s) >= old(at(acc_of(self).holds, s)))"),
+                  ("holds", "forall(lambda s=Str: at(acc_of(self).holds, s) == old(at(acc_of(self).holds, s)) + at(self._collateral_by_loan[result.id], s))"),
+                  ("no_collateral", "implies(self._lending_strategy.no_collateral, self._loans._items[result.id].no_collateral)"),
                   ("others", "forall(lambda k=Str: implies(k != result.id, ((k in self._loans._items) == old(k in self._loans._items)) "
                              "and implies(k in self._loans._items, same_object(self._loans._items[k], old(self._loans._items[k])))))"),
                   ("amount_pos", "amount > 0")],
@@ -172,7 +177,7 @@ contract(LM + "repay_loan", props=P + ["C11"], types={"loan_id": "Str"},
                   ("ledger", "forall(lambda s=Str: (at(acc_of(self).balances, s) - at(acc_of(self).borrowed, s)) - old(at(acc_of(self).balances, s) - at(acc_of(self).borrowed, s)) "
                              "== GHOST.ledger[s] - old(GHOST.ledger[s]))"),
                   ("interest_nonneg", "let(lambda l=self._loans._items[loan_id]: forall(lambda s=Str: at(l._paid_interest, s) >= old(at(l._paid_interest, s))))"),
-                  ("holds", "forall(lambda s=Str: at(acc_of(self).holds, s) <= old(at(acc_of(self).holds, s)))")],
+                  ("holds", "forall(lambda s=Str: at(acc_of(self).holds, s) == old(at(acc_of(self).holds, s)) - old(at(self._collateral_by_loan[loan_id], s)))")],
          raises=REPAY_RAISES,
          modifies=ACC_MOD + ["self._loans._items[loan_id]._is_open", "content(self._loans._items[loan_id]._paid_interest)",
                              "content(self._collateral_by_loan)", "GHOST.ledger"])
@@ -187,6 +192,52 @@ contract(LM + "cancel_loan", props=P, types={"loan_id": "Str"},
                                "- (l._borrowed_amount if s == l._borrowed_symbol else 0)))"),
                   ("borrowed", "let(lambda l=self._loans._items[loan_id]: forall(lambda s=Str: at(acc_of(self).borrowed, s) == old(at(acc_of(self).borrowed, s)) "
                                "- (l._borrowed_amount if s == l._borrowed_symbol else 0)))"),
-                  ("holds", "forall(lambda s=Str: at(acc_of(self).holds, s) <= old(at(acc_of(self).holds, s)))")],
-         raises=dict(REPAY_RAISES, **{"AssertionError!": REPAY_RAISES["Error"] + [("not_just_created", "TRUE")]}),
+                  ("holds", "forall(lambda s=Str: at(acc_of(self).holds, s) == old(at(acc_of(self).holds, s)) - old(at(self._collateral_by_loan[loan_id], s)))")],
+         raises=dict(REPAY_RAISES, **{"AssertionError!": REPAY_RAISES["Error"] + [("not_just_created", "(loan_id in self._loans._items) and (is_none(self._ctx.dispatcher._last_dt) or self._loans._items[loan_id]._created_at != now_of(self))")]}),
          modifies=ACC_MOD + ["self._loans._items[loan_id]._is_open", "content(self._collateral_by_loan)"])
+
+# get_loans / get_loan: plumbing around _build_loan_info (iteration over filter views).  TRUSTED for now: the list
+# comprehension over chained filter() views is outside pyvc's subset; the contract is what callers rely on.
+contract(LM + "get_loans", props=P + ["C11"], trusted=True, returns="List[LoanInfo]", modifies=[],
+         types={"borrowed_symbol": "Opt[Str]", "is_open": "Opt[Bool]"},
+         requires=[("inv", "lm_loans_wf(self) and prices_wf(self._ctx.prices)")],
+         ensures=[("fresh", "fresh(result)"),
+                  # every element mirrors a registered loan that matches the filters ...
+                  ("sound", "forall(lambda i=Int: implies(0 <= i and i < seq_len(result), "
+                            "(seq_at(result, i).id in self._loans._items) and loan_info_mirrors(seq_at(result, i), self._loans._items[seq_at(result, i).id]) "
+                            "and loan_matches(self._loans._items[seq_at(result, i).id], borrowed_symbol, is_open)))"),
+                  # ... each matching loan exactly once
+                  ("complete", "forall(lambda k=Str: implies((k in self._loans._items) and loan_matches(self._loans._items[k], borrowed_symbol, is_open), "
+                               "exists(lambda i=Int: 0 <= i and i < seq_len(result) and seq_at(result, i).id == k)))"),
+                  ("nodup", "forall(lambda i=Int, j=Int: implies(0 <= i and i < j and j < seq_len(result), seq_at(result, i).id != seq_at(result, j).id))")],
+         raises={"Error": []},
+         notes="trusted: iteration plumbing (filter views + list comprehension with a contract call per element)")
+specfun("loan_matches", ["l", "sym", "op"], "(is_none(sym) or l._borrowed_symbol == sym) and (is_none(op) or l._is_open == op)")
+specfun("loan_info_mirrors", ["i", "l"], "i.id == l._id and i.is_open == l._is_open and i.borrowed_symbol == l._borrowed_symbol and i.borrowed_amount == l._borrowed_amount")
+
+contract(ML + "__init__", props=P, types={"id": "Str", "borrowed_symbol": "Str", "borrowed_amount": "Real"},
+         ensures=[("fields", "self._id == id and self._borrowed_symbol == borrowed_symbol and self._borrowed_amount == borrowed_amount "
+                             "and self._is_open and self._created_at == created_at and same_object(self._conditions, conditions) "
+                             "and forall(lambda s=Str: not (s in self._paid_interest)) and fresh(self._paid_interest)"),
+                  ("wf", "loan_wf(self)"), ("no_collateral", "self.no_collateral")],
+         raises={"AssertionError!": [("bad", "not (borrowed_amount > 0)")]}, modifies=["self"],
+         ghost_exit=[("self.no_collateral", "TRUE")])
+
+# ---------------------------------------------------------------------------------------------------------------------
+# margin rule (C06, C10)
+# ---------------------------------------------------------------------------------------------------------------------
+MT = {"updated_balances": "Dict[Str,Real]", "updated_holds": "Dict[Str,Real]", "updated_borrowed": "Dict[Str,Real]"}
+contract(MLS + "_calculate_margin_level", props=["C10", "C06"], types=MT, returns="Real", modifies=[], trusted=True,
+         requires=[("ctx", "not_none(self._exchange_ctx) and not_none(self._loan_mgr)")],
+         ensures=[], raises={"Error": []},
+         notes="TRUSTED for now (finite sums over maps): margin level = equity / (used margin + interest) * 100")
+contract(MLS + "_check_margin_level", props=["C10", "C06", "C07"], types=MT, modifies=[],
+         requires=[("ctx", "not_none(self._exchange_ctx) and not_none(self._loan_mgr)")],
+         ensures=[],
+         # never rejects an update that changes neither balances nor borrowed amounts (C06: hold releases always pass)
+         raises={"Error": [("touches_funds", "not (same_content(updated_balances, self._exchange_ctx.account_balances.balances) "
+                                             "and same_content(updated_borrowed, self._exchange_ctx.account_balances.borrowed))")]})
+contract(B + "lending.margin.CheckMarginLevel.check", props=["C10", "C06", "C07"], types=MT, modifies=[],
+         requires=[("account", "wf_account(self.account)"), ("rule", "rule_wf(self)")],
+         ensures=[],
+         raises={"Error": [("not_a_release", "not release_only(self.account, updated_balances, updated_holds, updated_borrowed)")]})
